@@ -71,9 +71,14 @@ CONTRACTS[F + "bpe_encode"] = dict(
     requires=["max_char_code >= 0"],
     returns="int[]",
     ensures=["len(result) <= len(chars)"],
+    # characters above max_char_code become code 0, the others keep their code point; the k-th learned pair is contracted into
+    # code max_char_code + 1 + k (the numbering that ties tokens_[k] to its code when decoding)
+    ghost_after=[("@assign:new_code", 1,
+                  "assert forall(0, len(chars), lambda k: compressed_chars[k] == (ord(chars[k]) if ord(chars[k]) <= max_char_code else 0))")],
     loops={
-        "for#1": dict(invariant=["len(compressed_chars) == len(chars)"]),
-        "for#2": dict(invariant=["len(compressed_chars) <= len(chars)"]),
+        "for#1": dict(invariant=["len(compressed_chars) == len(chars)",
+                                 "forall(0, i, lambda k: compressed_chars[k] == (ord(chars[k]) if ord(chars[k]) <= max_char_code else 0))"]),
+        "for#2": dict(invariant=["len(compressed_chars) <= len(chars)", "new_code == max_char_code + 1 + _k_for2"]),
     },
 )
 
@@ -116,14 +121,23 @@ CONTRACTS[F + "lempel_ziv_based_encode"] = dict(
 
 CONTRACTS[F + "counts_to_csr_data"] = dict(
     params=dict(count_dict="dict[int,int]", column_dict="dict[int,int]"),
-    requires=["not same(count_dict, column_dict)"],
+    # the column dictionary numbers its entries 0..size-1 (how the vectorizer builds it: only through this function)
+    gen={"column_dict": lambda rng: {k: i for i, k in enumerate(rng.sample(range(-3, 9), rng.choice([0, 1, 2, 3, 4])))},
+         "count_dict": lambda rng: {k: rng.choice([1, 2, 3]) for k in rng.sample(range(-3, 9), rng.choice([0, 1, 2, 3]))}},
+    requires=["not same(count_dict, column_dict)", "dict_values_in(column_dict, 0, card(column_dict))"],
     modifies=["column_dict"],
     ensures=[
         "len(result[0]) == len(result[1]) and len(result[0]) == card(count_dict)",
         "unchanged(count_dict)",
+        # still numbered 0..size-1, only ever grown, and every emitted column index is a column of the (grown) dictionary
+        "dict_values_in(column_dict, 0, card(column_dict))",
+        "card(column_dict) >= old(card(column_dict))",
+        "forall(0, len(result[0]), lambda k: 0 <= result[0][k] and result[0][k] < card(column_dict))",
     ],
     loops={"for#1": dict(invariant=[
         "len(indices) == _k_for1 and len(data) == _k_for1",
-        "col_dict_size >= card(column_dict)",
+        "col_dict_size == card(column_dict) and col_dict_size >= old(card(column_dict))",
+        "dict_values_in(column_dict, 0, col_dict_size)",
+        "forall(0, len(indices), lambda k: 0 <= indices[k] and indices[k] < col_dict_size)",
     ])},
 )
